@@ -1,6 +1,6 @@
 (* Proofs for C20: what acceptance by the start-up model implies, for ALL oracles. *)
 From Coq Require Import List NArith ZArith Bool String Ascii Lia.
-From GoUpf Require Import ConfigGen ConstsGen Config.
+From GoUpf Require Import ConfigGen ConstsGen ConfigSpec Config.
 Import ListNotations.
 Local Open Scope string_scope.
 
@@ -244,6 +244,30 @@ Section Proofs.
     intros H. apply startup_started in H. destruct H as [H1 H2]. apply read_config_ok in H1.
     destruct H1 as [_ [A R]]. split; [apply accepts_sound; assumption|]. split; [assumption|].
     apply new_driver_open in H2. destruct H2 as [g [i [r [G [_ [L [E1 E2]]]]]]]. exists g, i, r. repeat split; assumption.
+  Qed.
+
+  (* the boolean monitor of monitor/ConfigSpec.v (the property's condition list) accepts whatever the model starts *)
+  Lemma started_cond_okb doc c a m : startup config_tags doc = Started c a m ->
+    cond_okb is_host is_cidr resolvable c = true.
+  Proof.
+    intros H. apply accept_sound in H.
+    destruct H as [[Hv [[p [Hp [_ [Hpa [_ [Hpn Hrt]]]]]] [[g [Hg [Hf Hifs]]] [Hdn [Hds [l [Hl Hlev]]]]]]]
+                    [[p' [Hp' Hres]] [g' [i [r [Hg' [Hil _]]]]]]].
+    rewrite Hp in Hp'. inversion Hp'; subst p'. rewrite Hg in Hg'. inversion Hg'; subst g'.
+    unfold cond_okb. rewrite Hv, Hp, Hg, Hl. cbn [supported_version]. rewrite String.eqb_refl.
+    rewrite Hpa, Hpn, Hres, Hf, Hil. cbn [andb].
+    assert (Ez : negb (zeqb (p_retrans_timeout p) 0) = true).
+    { unfold zeqb. destruct (Z.eqb_spec (p_retrans_timeout p) 0); [contradiction|reflexivity]. }
+    rewrite Ez. cbn [andb]. rewrite String.eqb_refl. cbn [andb].
+    assert (E1 : forallb (fun i0 => is_host (i_addr i0) && (String.eqb (i_type i0) "N3" || String.eqb (i_type i0) "N9")) (i :: r) = true).
+    { rewrite <- Hil. apply forallb_forall. intros x Hx. rewrite Forall_forall in Hifs. destruct (Hifs x Hx) as [A1 A2].
+      rewrite A1. destruct A2 as [A2|A2]; rewrite A2; [reflexivity|]. cbn [andb]. apply orb_true_r. }
+    rewrite E1. cbn [andb].
+    destruct (c_dnnlist c) as [|d0 ds] eqn:Ed; [exfalso; apply Hdn; reflexivity|].
+    assert (E2 : forallb (fun d => negb (String.eqb (d_dnn d) "") && is_cidr (d_cidr d)) (d0 :: ds) = true).
+    { apply forallb_forall. intros x Hx. rewrite Forall_forall in Hds. destruct (Hds x Hx) as [A1 A2].
+      rewrite A2. destruct (String.eqb_spec (d_dnn x) ""); [contradiction|reflexivity]. }
+    rewrite E2. cbn [andb]. apply str_mem_In. assumption.
   Qed.
 
   (* C20_values_unchanged: the running configuration is the decoded document, nothing else *)
